@@ -1,19 +1,23 @@
 #!/bin/bash
-# usage: seedtest.sh Cxx [check ids...]  -> runs each seeded change of Cxx against the given checks (default: Cxx)
+# usage: [SEEDBASE=/tmp/seed2] tools/seedtest.sh Cxx [check ids...]
+# Runs each seeded change of Cxx (SEEDBASE/Cxx-out/k/{patch.diff,demo.py}) in the scratch worktree SEEDBASE/Cxx
+# against the given checks (default: Cxx): demo with patch (must fail), checks via VERIF_REPO, demo without patch (must pass).
+B=${SEEDBASE:-/tmp/seed}
 P=$1; shift; CH=${@:-$P}
 H=$(git -C /repo rev-parse HEAD)
-cd /tmp/seed/$P && git checkout -q -- . && git checkout -q --detach $H
-for k in 1 2; do
-  [ -f /tmp/seed/$P-out/$k/patch.diff ] || continue
+mkdir -p /tmp/scratch
+cd $B/$P && git checkout -q -- . && git checkout -q --detach $H
+for k in 1 2 3; do
+  [ -f $B/$P-out/$k/patch.diff ] || continue
   git checkout -q -- .
-  if ! git apply /tmp/seed/$P-out/$k/patch.diff 2>/tmp/scratch/apply.err; then echo "$P-$k PATCH DOES NOT APPLY to HEAD: $(head -2 /tmp/scratch/apply.err)"; continue; fi
-  (cd /tmp/seed/$P-out/$k && PYTHONPATH=/tmp/seed/$P timeout 900 /venv/bin/python demo.py >/tmp/scratch/demo.out 2>&1); drc=$?
-  echo "$P-$k demo(with patch) rc=$drc: $(tail -1 /tmp/scratch/demo.out | cut -c1-150)"
+  if ! git apply $B/$P-out/$k/patch.diff 2>/tmp/scratch/apply-$P-$k.err; then echo "$P-$k PATCH DOES NOT APPLY to HEAD: $(head -2 /tmp/scratch/apply-$P-$k.err)"; continue; fi
+  (cd $B/$P-out/$k && PYTHONPATH=$B/$P timeout 900 /venv/bin/python demo.py >/tmp/scratch/demo-$P-$k.out 2>&1); drc=$?
+  echo "$P-$k demo(with patch) rc=$drc: $(tail -1 /tmp/scratch/demo-$P-$k.out | cut -c1-150)"
   for c in $CH; do
-    (cd /verif && VERIF_REPO=/tmp/seed/$P timeout 3400 ./check $c > /tmp/scratch/seed-$P-$k-$c.log 2>&1); rc=$?
+    (cd /verif && VERIF_REPO=$B/$P timeout 3400 ./check $c > /tmp/scratch/seed-$P-$k-$c.log 2>&1); rc=$?
     echo "   check $c rc=$rc viol=$(grep -c '^VIOLATION' /tmp/scratch/seed-$P-$k-$c.log) nofail=$(grep -c 'no-failing-input-found' /tmp/scratch/seed-$P-$k-$c.log)"
     grep -A1 '^VIOLATION' /tmp/scratch/seed-$P-$k-$c.log | grep -- '->' | cut -c1-220 | sort | uniq -c | sort -rn | head -4
   done
   git checkout -q -- .
-  (cd /tmp/seed/$P-out/$k && PYTHONPATH=/tmp/seed/$P timeout 900 /venv/bin/python demo.py >/tmp/scratch/demo.out 2>&1); echo "   demo(clean) rc=$?"
+  (cd $B/$P-out/$k && PYTHONPATH=$B/$P timeout 900 /venv/bin/python demo.py >/tmp/scratch/demo-$P-$k.out 2>&1); echo "   demo(clean) rc=$?"
 done
